@@ -67,9 +67,22 @@ def rand_opts(rng):
 
 # ---------------------------------------------------------------- implementation + oracles
 
-def convert(o, s):
+PRE_DOCS = ['\\begin{equation} a \\alpha b', '$x', '\\[ y', '\\begin{itemize}\\item[q] z', 'a %c', '\\textbf{', '\\begin{align} x &= y \\end{align}',
+            '\\emph{a} \\alpha b', '{\\alpha', '\\begin{equation}x\\end{equation} \\equation', '$$ \\text{ $', 'a\n\n\\item b', '\\begin{enumerate}[i]\\item']
+
+def convert(o, s, pre=None):
+    """pre: documents converted with the SAME converter object before (unterminated formulas / environments, comments,
+    lists …; their outcome is irrelevant): a converter that has been used gives the documented text like a new one"""
     from pylatexenc.latex2text import LatexNodes2Text
-    return LatexNodes2Text(**c07.opts_kwargs(o)).latex_to_text(s)
+    l2t = LatexNodes2Text(**c07.opts_kwargs(o))
+    for p in pre or []:
+        try:
+            l2t.latex_to_text(p)
+        except RecursionError:
+            raise
+        except Exception:
+            pass
+    return l2t.latex_to_text(s)
 
 def case_source(c):
     if c['k'] == 'comp':
@@ -105,7 +118,7 @@ def run_impl(c):
     s = case_source(c)
     fail = None
     try:
-        got = convert(o, s)
+        got = convert(o, s, c.get('pre'))
     except RecursionError:
         raise
     except Exception as e:
@@ -266,6 +279,8 @@ def cases(tier, rng):
         if not quick:
             os += [rand_opts(rng), rand_opts(rng)]
         for c in doc_cases(d, os, fix=False):
+            if c['k'] == 'doc' and rng.random() < 0.2:
+                c = dict(c, pre=[rng.choice(PRE_DOCS) for _ in range(rng.randint(1, 2))])
             yield c
     # (d) composition law: every pair of hand-written blocks, random blocks
     B = [spectext.refix(rng, b) for b in blocks()]
